@@ -143,6 +143,16 @@ Theorem abq_no_lost_wakeup : forall n nc cap ks sched t, 1 <= cap ->
 Proof. exact abq_no_lost_wakeup_all. Qed.
 Print Assumptions abq_no_lost_wakeup.
 
+(* the two condition variables keep their waiters apart: a notify on cv_not_empty (put) can only
+   wake a thread that sleeps on cv_not_empty (a consumer), a notify on cv_not_full (take) only a
+   producer -- a wake token always reaches a waiter for whom the announced change is the awaited one *)
+Theorem abq_cv_waiters_homogeneous : forall s t ch s' l u,
+  qstep s t ch = Some (s', l) -> u <> t -> q_thr s' u <> q_thr s u ->
+  (q_pc (q_thr s t) = QPSig /\ q_pc (q_thr s u) = QCAsleep /\ q_pc (q_thr s' u) = QCWoken) \/
+  (q_pc (q_thr s t) = QCSig /\ q_pc (q_thr s u) = QPAsleep /\ q_pc (q_thr s' u) = QPWoken).
+Proof. exact abq_cv_waiters_homogeneous_all. Qed.
+Print Assumptions abq_cv_waiters_homogeneous.
+
 (* balanced scripts (as many takes as puts: the sums of the script lengths over the producers and
    over the consumers of the initial state agree): no blocked end state at all, every script can
    be completed *)
@@ -319,6 +329,18 @@ Theorem refuted_futex_wait_on_reloaded_value :
   ~ FInv (exec fsys fstep_reload (finit 2 4 false 1 (fun _ => 1%nat)) f_lost_sched).
 Proof. exact chan_futex_reload_breaks_invariant. Qed.
 Print Assumptions refuted_futex_wait_on_reloaded_value.
+
+(* ONE condition variable for both directions (waiters no longer homogeneous): capacity 1, two
+   producers, one consumer: consumer asleep with a message queued, a producer asleep holding
+   another, nobody can ever run again *)
+Theorem refuted_single_condition_variable :
+  let s := exec qsys qstep_onecv q_onecv_init q_onecv_sched in
+  q_pc (q_thr s 0%nat) = QCAsleep /\ q_cnt s = 1 /\
+  q_pc (q_thr s 2%nat) = QPAsleep /\ q_done s 1%nat /\
+  q_m s = None /\
+  (forall t, (t < 3)%nat -> qstep_onecv s t 0 = None).
+Proof. exact abq_single_cv_deadlocks. Qed.
+Print Assumptions refuted_single_condition_variable.
 
 (* `if` instead of `while` around a condvar wait + one spurious wake-up: take from an empty queue *)
 Theorem refuted_if_instead_of_while :
